@@ -39,6 +39,7 @@ macro_rules! make_hues {
         /// linear number.
         #[derive(Clone, Copy, Debug, Default)]
         #[cfg_attr(feature = "serializing", derive(Serialize, Deserialize))]
+        #[cfg_attr(feature = "serializing", serde(transparent))]
         #[repr(C)]
         pub struct $name<T = f32>(T);
 
